@@ -2,7 +2,9 @@ package config
 
 import (
 	"fmt"
+	"math"
 	"os"
+	"time"
 
 	"gopkg.in/yaml.v3"
 )
@@ -207,6 +209,47 @@ func (c *Config) Validate() error {
 	}
 	if err := c.validateLogging(); err != nil {
 		return err
+	}
+	if err := c.validateDurations(); err != nil {
+		return err
+	}
+	return nil
+}
+
+// maxSeconds is the largest number of seconds that still fits a time.Duration (about 292
+// years). The settings given in seconds are multiplied by time.Second when they are used; a
+// larger value would wrap around to a negative or arbitrary duration (and, for a ticker
+// interval, stop the process with a panic at start-up)
+const maxSeconds = int64(math.MaxInt64 / int64(time.Second))
+
+// validateDurations refuses settings in seconds that do not fit a time.Duration
+func (c *Config) validateDurations() error {
+	t := c.Server.Timeouts
+	settings := []struct {
+		name    string
+		seconds int
+		used    bool
+	}{
+		{"server.timeouts.read", t.Read, true},
+		{"server.timeouts.write", t.Write, true},
+		{"server.timeouts.idle", t.Idle, true},
+		{"server.timeouts.handler", t.Handler, true},
+		{"server.timeouts.shutdown", t.Shutdown, true},
+		{"server.timeouts.backend_dial", t.BackendDial, true},
+		{"server.timeouts.backend_read", t.BackendRead, true},
+		{"server.timeouts.backend_idle", t.BackendIdle, true},
+		{"load_balancer.websocket_pool.idle_timeout_seconds", c.LoadBalancer.WebSocketPool.IdleTimeoutSeconds, c.LoadBalancer.WebSocketPool.Enabled},
+		{"health_checks.active.interval", c.HealthChecks.Active.Interval, c.HealthChecks.Active.Enabled},
+		{"health_checks.active.timeout", c.HealthChecks.Active.Timeout, c.HealthChecks.Active.Enabled},
+		{"health_checks.passive.unhealthy_timeout", c.HealthChecks.Passive.UnhealthyTimeout, c.HealthChecks.Passive.Enabled},
+		{"rate_limit.refill_rate_seconds", c.RateLimit.RefillRate, c.RateLimit.Enabled},
+		{"circuit_breaker.interval_seconds", c.CircuitBreaker.IntervalSeconds, c.CircuitBreaker.Enabled},
+		{"circuit_breaker.timeout_seconds", c.CircuitBreaker.TimeoutSeconds, c.CircuitBreaker.Enabled},
+	}
+	for _, s := range settings {
+		if s.used && int64(s.seconds) > maxSeconds {
+			return fmt.Errorf("%s is too large: %d seconds (at most %d)", s.name, s.seconds, maxSeconds)
+		}
 	}
 	return nil
 }
